@@ -25,7 +25,7 @@ ASSUMPTIONS = ['domain as stated by the property: rectangular tables, unique key
                'variable / value field names; fromdicts(dicts(t)) needs >= 1 data row']
 KINDS = ['melt-recast', 'recast-direct', 'melt', 'transpose', 'flatten', 'unflatten-period', 'pivot', 'unpack', 'unpackdict', 'capture', 'split', 'splitdown',
          'dicts-roundtrip', 'columns-roundtrip']
-REQUIRED = (['views-read-twice', 'regex-flags', 'unpackdict:keys-from-a-sample-shorter-than-the-table'] + ['kind:' + k for k in KINDS] + ['none-key', 'compound-key', 'key-not-leading', 'one-column', 'period=1', 'period=width',
+REQUIRED = (['views-read-twice', 'columns-with-filler', 'regex-flags', 'unpackdict:keys-from-a-sample-shorter-than-the-table'] + ['kind:' + k for k in KINDS] + ['none-key', 'compound-key', 'key-not-leading', 'one-column', 'period=1', 'period=width',
             'pivot-missing-pair', 'field-by-index', 'include-original', 'explicit-variables-permuted', 'fromdicts-sample<nrows', 'fromdicts-generator:lagging-iterator', 'melt:key-inferred-from-variables', 'recast:sample-shorter-than-the-molten-table'])
 VALS = [None, 0, 1, 2.5, 'a', 'b', '', b'x', (1, 2), gen.D(2020, 1, 1), True]
 KEYS = [None, 1, 2, 3, 'a', 'b', b'a', (1, 2), 2.5, gen.D(2020, 1, 1), 0, '', ()]
@@ -86,6 +86,10 @@ def cases(ctx):
             c['missing'] = rng.choice([None, 'M', 0])
         elif kind in ('transpose', 'flatten', 'dicts-roundtrip', 'columns-roundtrip'):
             c['table'] = [names] + [[rng.choice(VALS) for _ in range(nf)] for _ in range(n)]
+            if kind == 'columns-roundtrip' and rng.random() < 0.5:
+                # a filler that is also a field name or a cell value; some rows stop short and are padded with it
+                c['missing'] = rng.choice([names[rng.randrange(nf)], 'M', rng.choice(VALS), 0])
+                c['table'] = [names] + [r[:rng.randint(0, nf)] if rng.random() < 0.4 else r for r in c['table'][1:]]
         elif kind == 'unflatten-period':
             c['values'] = [rng.choice(VALS) for _ in range(rng.randint(0, 9))]
             c['period'] = rng.randint(1, 4)
@@ -481,7 +485,12 @@ def judge(case, ctx):
                                 'expected': [tuple(hdr)] + rows, 'observed': g_ if not isinstance(g_, util.Raised) else g_.text}
         return None
     if kind == 'columns-roundtrip':
-        cols = util.attempt(lambda: petl.columns(table))
+        kw = {}
+        if 'missing' in case:
+            kw['missing'] = case['missing']
+            rows = [tuple(r) + (case['missing'],) * (len(hdr) - len(r)) for r in rows]
+            ctx.seen('columns-with-filler')
+        cols = util.attempt(lambda: petl.columns(table, **kw))
         if isinstance(cols, util.Raised):
             return {'kind': 'exception', 'op': 'columns', 'detail': cols.text, 'where': cols.where}
         if list(cols.keys()) != list(hdr) or any(util.crow(cols[h]) != util.crow([r[i] for r in rows]) for i, h in enumerate(hdr)):
